@@ -413,7 +413,8 @@ theorem setextClose_sim' (src : Bytes) : ∀ k ls p node sA sB, SR src k ls p sA
               exact removeChild_s2 h13 hp node
     · rw [if_neg hc, if_neg hc]
       refine S2.bind (modNode_s2' h6 node _ _ (fun hab => ?_)) (fun _ _ sA7 sB7 h7 => ?_)
-      · exact { hab with lines := htn.lines, linesNil := htn.linesNil, rawNE := fun hr => by rw [hnr6] at hr; cases hr }
+      · exact { hab with lines := htn.lines, linesNil := htn.linesNil, rawNE := (fun hr => by rw [hnr6] at hr; cases hr),
+                         blank := (fun hfl _ => htn.blank hfl rfl) }
       have hp := htn.parent
       simp only [Bool.false_eq_true, if_false] at hp
       rw [hp]
